@@ -193,6 +193,45 @@ def fnlri_cases(rng, n):
     return cases
 
 
+def mp_cases(rng, n):
+    """NLRI fields of MP_UNREACH_NLRI: 1..4 NLRI of one core family, with or without ADD-PATH identifiers; valid and mutated"""
+    cases = []
+    for _ in range(n):
+        afi, safi = rng.choice(FAMS)
+        ap = rng.random() < 0.5
+        vs = []
+        while len(vs) < rng.choice([1, 2, 3, 4]):
+            v = gen_fnlri(rng)
+            if v["afi"] != afi or fam_kind(v["safi"]) != fam_kind(safi) or not fnlri_fits(v) or fnlri_ambiguous(v):
+                continue
+            v = dict(v, safi=safi)
+            vs.append((rng.choice([0, 1, 7, 4294967295]) if ap else 0, v))
+        b = b"".join((struct.pack(">I", i) if ap else b"") + py_enc_nlri(safi, dict(v, addr=bytes(masked(v["addr"], v["bits"])))) for i, v in vs)
+        cases.append({"op": "mpnlri", "afi": afi, "safi": safi, "ap": ap, "bytes": b, "vs": vs})
+        cases.append({"op": "mpnlri", "afi": afi, "safi": safi, "ap": ap, "bytes": mutate(rng, b)})
+        cases.append({"op": "mpnlri", "afi": afi, "safi": safi, "ap": not ap, "bytes": b})
+    return cases
+
+
+def mp_oracle(c, out):
+    if out.startswith("panic"):
+        return ("nlri-panic", out[:300])
+    vs = c.get("vs")
+    if vs is None:
+        return None
+    if not out.startswith("ok"):
+        return ("mp-nlri-field-rejected", "%s -> %s" % (line_of(c), out[:100]))
+    want = []
+    for i, v in vs:
+        k = fam_kind(v["safi"])
+        n = (v["bits"] + 7) // 8
+        want.append("%d:%s:%s:%d:%s" % (i, ",".join(str(l) for l in v["labels"]) if k != "plain" else "-", v["rd"].hex() if k == "vpn" else "-", v["bits"],
+                                       bytes(masked(v["addr"], v["bits"]))[:n].hex() or "-"))
+    if out.split()[1:] != want:
+        return ("mp-nlri-field-decodes-differently", "%s: decoded %s, serialised list %s" % (line_of(c), out.split()[1:], want))
+    return None
+
+
 def fnlri_oracle(c, out):
     if out.startswith("panic") or out.startswith("modified-input"):
         return ("nlri-" + out.split()[0], out[:300])
@@ -245,6 +284,8 @@ def line_of(c):
         return "rich"
     if c["op"] == "nlri":
         return "nlri %d %d %s" % (c["afi"], c["safi"], c["bytes"].hex())
+    if c["op"] == "mpnlri":
+        return "mpnlri %d %d %d %s" % (c["afi"], c["safi"], 1 if c["ap"] else 0, c["bytes"].hex())
     if c["op"] == "mknlri":
         v = c["v"]
         return "mknlri %d %d %s %s %d %s" % (v["afi"], v["safi"], ",".join(str(l) for l in v["labels"]) or "-", canon_rd(v["rd"]).hex() or "-", v["bits"], v["addr"].hex())
@@ -254,7 +295,7 @@ def line_of(c):
 
 
 def norm(c, out):
-    if c["op"] in ("dec", "nlri", "mknlri") and out.startswith("err"):
+    if c["op"] in ("dec", "nlri", "mknlri", "mpnlri") and out.startswith("err"):
         return "err"
     if c["op"] == "mknlri":
         return " ".join(out.split()[:3])
@@ -264,6 +305,8 @@ def norm(c, out):
 def oracle(c, out):
     if c["op"] in ("nlri", "mknlri"):
         return fnlri_oracle(c, out)
+    if c["op"] == "mpnlri":
+        return mp_oracle(c, out)
     if c["op"] == "rich":
         # constructor-built attributes of every family/kind the harness knows: Len() == octets, own output parses, fixpoint
         if out.startswith("ok"):
@@ -309,9 +352,10 @@ def run(ctx):
                     cases.append({"op": "dec", "ap": c["ap"], "bytes": bytes.fromhex(o[3:]), "emitted": True})
     cases.append({"op": "rich"})
     cases += fnlri_cases(rng, ctx.scale(1500, 60000))
+    cases += mp_cases(rng, ctx.scale(700, 30000))
     cov = core.differential(ctx, "c04", proof, cases, line_of, oracle, norm_impl=norm, norm_model=norm,
                             model_applies=lambda c: c["op"] != "rich",
-                            nontrivial=lambda c: c["op"] in ("dec", "rich", "nlri", "mknlri") or (c["msg"][0] == "update" and len(c["msg"][2]) >= 2),
+                            nontrivial=lambda c: c["op"] in ("dec", "rich", "nlri", "mknlri", "mpnlri") or (c["msg"][0] == "update" and len(c["msg"][2]) >= 2),
                             correspondence_name="BGPMessage.Serialize / ParseBGPMessage / attribute and NLRI codecs vs Wire.Model enc_msg / dec_msg")
     pc = core.proof_coverage(proof)
     pc.update(cov)
